@@ -10,11 +10,11 @@ cmake --build $WT/_build -j6 2>&1 | tail -2
 ctest --test-dir $WT/_build -j4 --timeout 900 2>&1 | tail -8 > $OUT/ctest_with.txt
 cat $OUT/ctest_with.txt
 LIB=$(ls $WT/_build/src/libpistache*.a | head -1)
-g++ -std=c++17 -fno-access-control -I$WT/include -I$WT/_build/include -I$WT/subprojects/hinnant-date/include $OUT/demo.cc $LIB -pthread -o $OUT/demo_with 2>&1 | tail -5
+g++ -std=c++17 -fno-access-control -I$WT/include -I$WT/_build/include -I$WT/subprojects/hinnant-date/include -I$WT/subprojects/cpp-httplib $OUT/demo.cc $LIB -pthread -o $OUT/demo_with 2>&1 | tail -5
 timeout 120 $OUT/demo_with > $OUT/demo_with.out 2>&1; echo "DEMO_WITH_RC=$?"
 git -C $WT checkout -q -- .
 cmake --build $WT/_build -j6 2>&1 | tail -2
-g++ -std=c++17 -fno-access-control -I$WT/include -I$WT/_build/include -I$WT/subprojects/hinnant-date/include $OUT/demo.cc $LIB -pthread -o $OUT/demo_without 2>&1 | tail -5
+g++ -std=c++17 -fno-access-control -I$WT/include -I$WT/_build/include -I$WT/subprojects/hinnant-date/include -I$WT/subprojects/cpp-httplib $OUT/demo.cc $LIB -pthread -o $OUT/demo_without 2>&1 | tail -5
 timeout 120 $OUT/demo_without > $OUT/demo_without.out 2>&1; echo "DEMO_WITHOUT_RC=$?"
 rm -f $OUT/demo_with $OUT/demo_without
 echo VERIFY-DONE
